@@ -3,6 +3,7 @@
 package loader
 
 import (
+	"reflect"
 	"os"
 	"path/filepath"
 	"strings"
@@ -20,9 +21,28 @@ func verifDotenvLoad(files ...string) error     { return nil }
 
 // the decoder stub understands exactly the two lines the harness writes
 func verifYamlUnmarshal(in []byte, out interface{}) error {
-	p := out.(*types.Project)
+	p, isProject := out.(*types.Project)
 	text := string(in)
 	lines := strings.Split(text, "\n")
+	if !isProject {
+		// some other target (a loader may decode a part of the file into a small struct of its
+		// own): fill the one flag the harness's files can set (found by its Go name)
+		v := reflect.ValueOf(out)
+		if v.Kind() == reflect.Ptr && v.Elem().Kind() == reflect.Struct {
+			st := v.Elem()
+			for i := 0; i < st.NumField(); i++ {
+				f := st.Type().Field(i)
+				if f.Type.Kind() == reflect.Bool && f.Name == "DisableEnvExpansion" {
+					for _, l := range lines {
+						if l == "disable_env_expansion: true" {
+							st.Field(i).Set(reflect.ValueOf(true))
+						}
+					}
+				}
+			}
+		}
+		return nil
+	}
 	for _, l := range lines {
 		if strings.HasPrefix(l, "version: \"") && strings.HasSuffix(l, "\"") {
 			p.Version = l[len("version: \"") : len(l)-1]
